@@ -189,15 +189,16 @@ theorem remove_count (q : TwoQ κ ν) (k : κ) (o : Obj κ ν) :
       cases h3 : find k q.ghost.items <;> (simp only [h3, heldAll, List.count_append] at *; omega)
 
 /-- `purge` releases every retained key and value, ghosts included -/
-theorem purge_count (q : TwoQ κ ν) (o : Obj κ ν) :
-    ∃ q' d, q.purge = .ok (q', d) ∧ q'.heldAll = [] ∧ q.heldAll.count o = d.count o := by
-  obtain ⟨f', e1, h1, hf0, hc1⟩ := RawLru.purge_count q.frequent o
-  obtain ⟨r', e2, h2, hr0, hc2⟩ := RawLru.purge_count q.recent o
-  obtain ⟨g', e3, h3, hg0, hc3⟩ := RawLru.purge_count q.ghost o
+theorem purge_count (q : TwoQ κ ν) :
+    ∃ q' d, q.purge = .ok (q', d) ∧ q'.heldAll = [] ∧ ∀ o : Obj κ ν, q.heldAll.count o = d.count o := by
+  obtain ⟨f', e1, h1, hf0, hc1⟩ := RawLru.purge_count q.frequent
+  obtain ⟨r', e2, h2, hr0, hc2⟩ := RawLru.purge_count q.recent
+  obtain ⟨g', e3, h3, hg0, hc3⟩ := RawLru.purge_count q.ghost
   refine ⟨{ q with frequent := f', recent := r', ghost := g' }, e1.drops ++ e2.drops ++ e3.drops,
-    by simp only [TwoQ.purge, h1, h2, h3], ?_, ?_⟩
+    by simp only [TwoQ.purge, h1, h2, h3], ?_, fun o => ?_⟩
   · simp only [heldAll, hf0, hr0, hg0, held_nil, List.append_nil]
-  · simp only [heldAll, List.count_append]; omega
+  · have := hc1 o; have := hc2 o; have := hc3 o
+    simp only [heldAll, List.count_append]; omega
 
 theorem drop_count (q : TwoQ κ ν) (o : Obj κ ν) : q.dropCache.count o = q.heldAll.count o := by
   simp only [TwoQ.dropCache, RawLru.dropCache, heldAll, held, List.count_append]; omega
